@@ -7,6 +7,16 @@ BASELINE_CMD = "cd /repo && /venv/bin/python -m pytest -ra -q -p no:cacheprovide
 
 # id -> (level, quick timeout s, thorough timeout s, technique, level text, level note, design ref)
 CHECKS = {
+ 'C01': ('exploration', 1200, 7200,
+         'deterministic simulation: real KWN model under a seeded configuration/solve-call schedule with a per-step observer and read-only taps; reference mass balance + freshness of the precipitate-composition table from the backend proxy call log',
+         'Every recorded step of every run is compared with a scalar reference balance built from the tapped inputs, the recorded row must be that evaluation, the composition table must be the latest backend answer for the current class boundaries, and the identity is re-evaluated on the live distribution with an explicitly explained slack.',
+         'Fault-free runs only; clamp-active and fraction>=1 steps exempt (counted); reference uses kawin\'s own Avogadro constant for unit conversion; stub-backend runs say nothing about kawin.thermo (evidence counts real vs stub).',
+         'DESIGN.md 4/C01'),
+ 'C02': ('exploration', 1200, 7200,
+         'deterministic simulation: real KWN model with PSD recording on under seeded schedules; reported aggregates vs scalar moments of the step\'s distribution and of the recorded PSD row; per-step number budget from tapped stage nucleation rates',
+         'Every recorded step: density / mean radius / volume fraction vs reference moments, recorded PSD row vs the distribution with sub-1 classes removed, number budget N_new - N_start <= J_max dt, measured re-mesh contribution.',
+         'Known finding: a re-mesh changes the number density (third-moment rescaling). Negative classes produced by an over-long explicit step count as "less than one particle" removals. Missing PSD rows on the documented phase-reset path are informational.',
+         'DESIGN.md 4/C02'),
  'C03': ('fault_enumeration', 1500, 7200,
          'deterministic simulation with fault injection: real KWN model behind a fault-injecting thermodynamics proxy; single-fault position enumeration per workload + seeded fault sequences + fault-free configuration swarm; well-formedness invariants every step',
          'Every accepted step and every call history of every run is checked for alignment, finiteness, ranges, monotone time and exact end time; for fixed workloads every backend-call index receives a single "no result" fault and a burst of three; seeded sequences add mixed rates and bursts, real-backend runs exercise kawin.thermo\'s own fallback.',
